@@ -16,6 +16,8 @@ fn main() {
         "c15-life" => stress::c15(&rest),
         "race-stress" => race::main(&rest),
         "c07-stress" => stress::c07(&rest),
+        "src-replay" => sources::main(&rest),
+        "embed-check" => sources::embed_check(&rest),
         "c08-stress" => stress::c08(&rest),
         "cache-replay" => replay::main(&rest),
         "rid-replay" => c18::replay(&rest),
